@@ -4,6 +4,7 @@
    Abstract state: the map key -> value (digests) and the caller's handles h -> value.
      put / del       change the map only
      ret(h, k, v)    a read handed value v of key k to the caller as handle h: v = map[k]
+     retkey(h, v)    an iterator handed the key string v to the caller as handle h
      mut(h, v')      the caller overwrites the bytes of its handle: handle := v', the map is untouched
      mutbuf(k)       the caller reuses the buffer it passed to Put: nothing changes
      churn           overwrites of other keys, compaction, table recycling, migration: nothing changes
@@ -28,12 +29,13 @@ Put == Ev.t = "put" /\ m' = Set(m, Ev.k, Ev.v) /\ UNCHANGED <<seq, hd>> /\ Ok
 Del == Ev.t = "del" /\ m' = Set(m, Ev.k, "nil") /\ UNCHANGED <<seq, hd>> /\ Ok
 Ret == /\ Ev.t = "ret" /\ hd' = Set(hd, Ev.h, Ev.v) /\ UNCHANGED <<seq, m>>
        /\ IF Ev.v # Val(m, Ev.k) THEN Fail("a read returned a value that is not the stored one") ELSE Ok
+RetKey == Ev.t = "retkey" /\ hd' = Set(hd, Ev.h, Ev.v) /\ UNCHANGED <<seq, m>> /\ Ok
 Mut == Ev.t = "mut" /\ hd' = Set(hd, Ev.h, Ev.v) /\ UNCHANGED <<seq, m>> /\ Ok
 Nop == Ev.t \in {"churn", "mutbuf"} /\ UNCHANGED <<seq, m, hd>> /\ Ok
 Obs == /\ Ev.t = "obs" /\ UNCHANGED <<seq, m, hd>>
        /\ IF Ev.v # Val(hd, Ev.h) THEN Fail("a value handed to a caller changed afterwards (" \o Ev.after \o ")") ELSE Ok
 Get == /\ Ev.t = "get" /\ UNCHANGED <<seq, m, hd>>
        /\ IF Ev.v # Val(m, Ev.k) THEN Fail("the stored value changed without a write (" \o Ev.after \o ")") ELSE Ok
-Next == i <= Len(Trace) /\ i' = i + 1 /\ (Reset \/ Put \/ Del \/ Ret \/ Mut \/ Nop \/ Obs \/ Get)
+Next == i <= Len(Trace) /\ i' = i + 1 /\ (Reset \/ Put \/ Del \/ Ret \/ RetKey \/ Mut \/ Nop \/ Obs \/ Get)
 Spec == i = 1 /\ err = "" /\ seq = 0 /\ m = <<>> /\ hd = <<>> /\ [][Next]_vars
 =============================================================================
